@@ -15,6 +15,7 @@
 package c12
 
 import (
+	"context"
 	"fmt"
 	"strings"
 
@@ -143,7 +144,31 @@ func history(c *lib.Ctx, sc *lib.Script, fails *[]lib.OracleFail, rng *lib.RNG, 
 		steps = max(steps, len(script))
 		c.Hit("history:sparse-unique-then-plain")
 	}
+	// One history in six gets a watcher at a random point – nobody reads it – and half of those watchers carry a
+	// malformed filter (not a model operation: a watcher must never change what a mutation does or reports; repo
+	// 7f54b88: a malformed one made every later call return an error AFTER the document was stored or removed).
+	watchAt := -1
+	if rng.Chance(1, 6) {
+		watchAt = rng.Intn(steps)
+	}
+	wctx, wcancel := context.WithCancel(context.Background())
+	defer wcancel()
 	for s := 0; s < steps && len(*fails) == 0; s++ {
+		if s == watchAt {
+			var f any
+			if rng.Bool() {
+				f = lib.Pick(rng, []any{
+					map[string]any{"a": map[string]any{"$foo": 1}},
+					map[string]any{"$bar": 1},
+					map[string]any{"$and": []any{map[string]any{"b": map[string]any{"$gt": 0, "$regex": "x"}}}},
+				})
+				c.Hit("watcher:malformed-filter")
+			} else {
+				f = lib.Pick(rng, []any{nil, map[string]any{"a": 1}, map[string]any{"b": map[string]any{"$exists": false}}})
+				c.Hit("watcher:well-formed-filter")
+			}
+			_, _ = k.St.Watch(wctx, f)
+		}
 		var o sg.Op
 		single := true
 		if len(script) > 0 {
